@@ -160,10 +160,21 @@ class AWSElastiCacheHashClient(HashClient):
 
         May useful on error handling during cluster scale down or scale up
         """
+        servers = self._get_nodes_list()
+
         old_clients = self.clients.copy()
         self.clients.clear()
+        # The hasher and the failover bookkeeping still know the old nodes.
+        for key in old_clients:
+            try:
+                self.hasher.remove_node(key)
+            except ValueError:
+                # already taken out of rotation by failover
+                pass
+        self._failed_clients.clear()
+        self._dead_clients.clear()
 
-        for server in self._get_nodes_list():
+        for server in servers:
             self.add_server(normalize_server_spec(server))
 
         for client in old_clients.values():
